@@ -214,6 +214,15 @@ class JoinBarrier(FlowBase):
         return []
 
     def check_quiescent(self, g, sim, post):
+        status = post["status"]
+        # a join whose barrier is satisfied must run (once per satisfaction)
+        due = [t for t in g["tok"] if self.ref.d.is_join(t[0])]
+        if due and status not in (st.FAILED, st.CANCELED) and not sim.h["cancel_req"] and not (
+                status == st.PAUSED and sim.h["pause_req"]):
+            return [{"kind": "satisfied_join_never_ran",
+                     "sig": {"status": status, "in_cycle": self.ref.d.in_cycle(due[0][0])},
+                     "detail": "barrier of %s satisfied on lineage %s but the join was never offered" % (
+                         due[0][0], due[0][1])}]
         partial = self.ref.partial_joins(g)
         if not partial:
             return []
